@@ -178,6 +178,9 @@ def mon_alive(sess, sc):
         bad.append(("daemon-dies", "during-script:%s" % (sess.sim.done or {}).get("kind"), "the daemon terminated while serving: %s | stderr: %s" % (sess.sim.done, sess.stderr()[-400:])))
     elif sess.final is None or sess.final.get("kind") != "return" or sess.final.get("status") != 0:
         bad.append(("shutdown", "teardown:%s" % (sess.final or {}).get("kind"), "SIGTERM did not lead to a clean `return 0`: %s | stderr: %s" % (sess.final, sess.stderr()[-400:])))
+    blk = [l for l in sess.sim.trace if l.startswith("BLOCKING ")]
+    if blk:
+        bad.append(("wedge", "blocking-call", "the select loop made a call that can block on a descriptor still in blocking mode (%s): a silent peer parks every session" % blk[0]))
     return bad
 
 
